@@ -423,4 +423,28 @@ def r9_resimulated_data_layout(ctx):
         ctx.check(ok, f"{ex.qual}#layout:{k.split('/')[-1]}", f"reads '{k}' from the layout the re-simulation produces" if ok else f"reads data_tree['{k}'] but the re-simulation (_apply_parameters: with_inherited_coords={norm(lay)}) stores the buckets {'under /bucket' if hier else 'at the root'}: computing the returned simulated data raises KeyError", where=ex, node=node)
 
 
-RULES = [r9_resimulated_data_layout, r8_builtin_formulas, r1_extent_check, r2_upper_bound, r3_same_range_both_sides, r4_accumulation_and_pairing, r5_weights_reach_function, r6_builtins_use_inputs, r7_checks_precede_optimiser]
+def r10_reported_champions(ctx):
+    """The reported champion decision / fitness are the archipelago's champions (get_champions_x / get_champions_f, which pygmo never lets get worse), not e.g. the best individual of the current population, and the reported parameters are their conversion (shared with C10.R4)."""
+    from props.C10 import r4_single_conversion
+
+    r4_single_conversion(ctx)
+
+
+def r11_fitness_and_resimulation_agree(ctx):
+    """Re-simulating the champion reproduces its fitness only if fitness() and _apply_parameters() run the pipeline the same way: both call run_pipeline with the same readout, seed, outputs and debug arguments (sibling agreement)."""
+    fit = ctx.func(f"{FD}.fitness")
+    ap = ctx.func(f"{FD}._apply_parameters")
+    rf = stmt_calls(fit, ctx.R, {"pyxel.exposure.exposure:run_pipeline"})
+    ra = stmt_calls(ap, ctx.R, {"pyxel.exposure.exposure:run_pipeline"})
+    if len(rf) != 1 or len(ra) != 1:
+        ctx.fail(fit.qual + "#siblings", f"{len(rf)} / {len(ra)} run_pipeline calls in fitness / _apply_parameters", where=fit, node=fit.node)
+        return
+    for k in ("readout", "pipeline_seed", "outputs", "debug"):
+        a, b = kw(rf[0], k), kw(ra[0], k)
+        ta = norm(expand(fit, a)) if a is not None else None
+        tb = norm(expand(ap, b)) if b is not None else None
+        ok = ta == tb and ta is not None
+        ctx.check(ok, fit.qual + f"#siblings:{k}", f"{k}={ta} in the evaluation and in the re-simulation" if ok else f"the fitness evaluation runs with {k}={ta} but the re-simulation of the champions with {k}={tb}: the reported fitness / simulated data are not those of the reported parameters", where=fit, node=rf[0])
+
+
+RULES = [r10_reported_champions, r11_fitness_and_resimulation_agree, r9_resimulated_data_layout, r8_builtin_formulas, r1_extent_check, r2_upper_bound, r3_same_range_both_sides, r4_accumulation_and_pairing, r5_weights_reach_function, r6_builtins_use_inputs, r7_checks_precede_optimiser]
